@@ -75,6 +75,10 @@ def triggersForPath (p : Path) : List Trig :=
 /-- dropping the guard returned by `Store::try_write` -/
 def rootWriteNotify : List Trig := [C [], T [], C []]
 
+/-- dropping the guard returned by `Write::try_write` of a `Field<T>` / `ArcField<T>` made from the store itself
+(`ArcField::from(Store)`: `write = value.writer()`, i.e. `ArcStore::writer`): **`children[]` only** -/
+def rootHandleNotify : List Trig := [C []]
+
 /-- the `loop` of `Subfield::track_field`, on the reversed path -/
 def trackLoop : List Nat → List Trig
   | [] => [T []]
@@ -188,13 +192,15 @@ def FieldKeys.update (fk : FieldKeys) (ks : List Nat) : FieldKeys :=
 
 /-! ## values -/
 
-inductive Tag | struct | opt | vec | kvec | atom
+inductive Tag | struct | opt | vec | kvec | atom | enumv
 deriving DecidableEq, Repr
 
 /-- the store's value: a struct (`node struct fields`), `Option` (`node opt []` / `node opt [x]`),
 `Vec` (`node vec items`), keyed `Vec` (`node kvec items`, key = first field of the item), a leaf, or a struct
 behind a smart pointer that its parent patches as a whole (`node atom fields`: `Box<Leaf>` with
-`#[patch(|this, new| *this = new)]`, read through `DerefedField`, which adds no path segment) -/
+`#[patch(|this, new| *this = new)]`, read through `DerefedField`, which adds no path segment), or an enum
+value (`node enumv (leaf variant :: fields of that variant)`; `derive(Patch)` does not take enums, so its
+parent patches it as a whole too) -/
 inductive Val
   | leaf (n : Nat)
   | node (tag : Tag) (xs : List Val)
@@ -265,6 +271,8 @@ def patchVal : Val → Val → Path → Val × List Path
   | .node .atom xs, .node _ ys, p =>
     -- the derived `if new.field != self.field { closure; notify(path) }`
     if Val.beqList xs ys then (.node .atom xs, []) else (.node .atom ys, [p])
+  | .node .enumv xs, .node _ ys, p =>
+    if Val.beqList xs ys then (.node .enumv xs, []) else (.node .enumv ys, [p])
   | .node t xs, .node _ ys, p =>
     if xs.isEmpty && ys.isEmpty then (.node t xs, [])
     else if ys.isEmpty then (.node t [], [p])
@@ -289,7 +297,22 @@ inductive Acc
   | idx (i : Nat)
   | kfld (i : Nat)
   | key (k : Nat)
+  /-- field `i` of variant `v` of an enum: the `Option<Subfield>` accessor `variant_field()` that
+  `derive(Store)` generates for enums -/
+  | var (v i : Nat)
 deriving DecidableEq, Repr
+
+/-- the path segment `derive(Store)` gives field `i` of an enum variant: **always 0** (reactive_stores_macro
+`variant_to_tokens`: `Subfield::new(self, 0.into(), ..)`), so all fields of a variant share their triggers -/
+def varSeg (_i : Nat) : Nat := 0
+
+/-- the variant of the enum value at `vpos` -/
+def variantAt (v : Val) (vpos : Option Path) : Option Nat :=
+  match vpos with
+  | some pos => match v.get pos with
+    | some (.node .enumv (.leaf n :: _)) => some n
+    | _ => none
+  | none => none
 
 /-- root first: `store.mid().rows().at_key(10).label()` is `[fld 1, kfld 2, key 10, fld 1]` -/
 abbrev Chain := List Acc
@@ -305,7 +328,8 @@ deriving Repr
 /-- how a reader reads its field -/
 inductive RKind
   | plain   -- `.get()` / `.read()` / `.with(..)` / `.track()` + `read_untracked()` on the accessor (also through `Field` / `ArcField`)
-  | omap    -- `OptionStoreExt::map` / `invert` on the `Option` field on the way, then `.get()` on the rest of the chain
+  | omap    -- `OptionStoreExt::map` / `invert` on the `Option` field on the way (or the enum's `variant_field()`
+            -- accessor called inside the reader), then `.get()` on the rest of the chain
   | iterK   -- `for item in keyed_field { item.get() }` (`KeyedSubfield::into_iter`)
   | iterU   -- `for item in field.iter_unkeyed() { item.get() }` (`StoreFieldIterator::iter_unkeyed`, after fix-c16-4)
 deriving DecidableEq, Repr
@@ -400,6 +424,12 @@ def stepAccG (old : Bool) (sw : St × Walk) (a : Acc) : St × Walk :=
                   tr := if old then w.tr ++ [C tp] else w.un ++ triggersForPath tp,
                   un := if old then w.tr else w.un,
                   absent := w.absent || (!w.oob && !childExists st.val w.vpos i), last := some a })
+  | .var v i =>
+    let tp := w.tpath ++ [varSeg i]
+    (st, { w with tpath := tp, parent := w.tpath, vpos := w.vpos.map (· ++ [i + 1]),
+                  tr := w.un ++ triggersForPath tp, un := w.un,
+                  absent := w.absent || (!w.oob && (variantAt st.val w.vpos != some v || !childExists st.val w.vpos (i + 1))),
+                  last := some a })
   | .key k =>
     let r := withFieldKeys st w.tpath w.vpos
     match r.2.get k with
@@ -430,6 +460,7 @@ def Walk.trackListOld (w : Walk) : List Trig :=
   | some (.kfld _) => keyedFieldTrackOld w.parent w.tpath
   | some (.idx _) => defaultTrackOld w.tpath
   | some (.key _) => defaultTrackOld w.tpath
+  | some (.var _ _) => subfieldTrack w.tpath
 
 /-- what the reader closure of the harness logs after tracking -/
 def Walk.read (w : Walk) (v : Val) : Seen :=
@@ -474,11 +505,13 @@ def trackAndRead (st : St) (e : Nat) (c : Chain) : St × Seen :=
   let st' := { r.1 with subs := r.2.trackList.foldl (fun m t => subscribe m e t) r.1.subs }
   (st', r.2.read st'.val)
 
-/-- the first prefix of `c` that addresses an `Option` field (its length); the harness knows it from the types -/
+/-- the first prefix of `c` that addresses an `Option` or enum field (its length); the harness knows it from
+the types -/
 def optSplit (st : St) (c : Chain) : Option Nat :=
   (List.range (c.length + 1)).find? fun n =>
     match (walk st (c.take n)).2.read st.val with
     | .val (.node .opt _) => true
+    | .val (.node .enumv _) => true
     | _ => false
 
 def readItems (e : Nat) (c : Chain) (mk : Nat → Acc) : List Nat → St × Seen → St × Seen
@@ -498,11 +531,13 @@ def runKind (st : St) (e : Nat) (x : Eff) : St × Seen :=
     match optSplit st x.chain with
     | none => trackAndRead st e x.chain
     | some n =>
-      -- `self.try_read()` on the option field …
+      -- `self.try_read()` on the option field (`map`) / `track_field` + `reader()` on the enum field
+      -- (`variant_field()`) …
       let r := trackAndRead st e (x.chain.take n)
       match r.2 with
-      | .val (.node _ (_ :: _)) => trackAndRead r.1 e x.chain   -- … `Some`: the closure reads the rest
-      | .val _ => (r.1, .absent)                                -- … `None`
+      | .val _ =>
+        if (walk r.1 (x.chain.take (n + 1))).2.absent then (r.1, .absent)   -- … `None` / another variant
+        else trackAndRead r.1 e x.chain                                     -- … the rest is read
       | bad => (r.1, bad)
   | .iterK =>
     -- `into_iter`: `update_keys`, `track_field`, then every item is read through its `AtKeyed`
@@ -547,8 +582,10 @@ inductive Op
   /-- `pre`: the accessor after this many steps is converted to a `Field` / `ArcField` when the reader is
   created (`.into()` evaluates `path()` there, which creates key tables on the way) -/
   | reader (c : Chain) (kind : RKind) (imm : Bool) (pre : Option Nat)
-  | set (c : Chain) (v : Val)
-  | patch (c : Chain) (v : Val)
+  /-- `era = some k`: the accessor after `k` steps is converted to a `Field` / `ArcField` (`.into()`) and the
+  write goes through that handle and the rest of the chain -/
+  | set (c : Chain) (v : Val) (era : Option Nat)
+  | patch (c : Chain) (v : Val) (era : Option Nat)
   | kpush (c : Chain) (v : Val)
   | kremove (c : Chain) (i : Nat)
   | kswap (c : Chain) (i j : Nat)
@@ -632,8 +669,12 @@ def stepOp (st : St) (op : Op) : St × Wrote :=
       | none => st
     let st := { st with effs := st.effs ++ [{ chain := c, kind := kind, imm := imm, woken := !imm }] }
     (if imm then runEff st e else st, .done)
-  | .set c v => writeVia st c (fun _ => v)
-  | .patch c v => patchVia st c v
+  | .set c v era =>
+    if era.isSome && c.isEmpty then
+      -- `Field::<Root>::from(store).set(v)`: the handle's `write` is `ArcStore::writer`, not `Store::try_write`
+      (notifyAll { st with val := v } rootHandleNotify, .done)
+    else writeVia st c (fun _ => v)
+  | .patch c v _ => patchVia st c v
   | .kpush c v => writeVia st c (fun old => match old with | .node t xs => .node t (xs ++ [v]) | x => x)
   | .kremove c i => writeVia st c (fun old => match old with | .node t xs => .node t (xs.eraseIdx i) | x => x)
   | .kswap c i j => writeVia st c (fun old => match old with | .node t xs => .node t (swapList xs i j) | x => x)
@@ -659,6 +700,10 @@ def logicalGet : Val → Chain → Seen
     match v.items.find? (fun x => x.keyOf = k) with
     | some c => logicalGet c r
     | none => .none
+  | v, .var n i :: r =>
+    match v with
+    | .node .enumv (.leaf m :: fs) => if m = n then (match fs[i]? with | some c => logicalGet c r | none => .absent) else .absent
+    | _ => .absent
 
 def Acc.norm : Acc → Acc
   | .kfld i => .fld i
@@ -673,6 +718,7 @@ mutual
 def diffVal : Val → Val → Chain → List Chain
   | .leaf a, .leaf b, c => if a = b then [] else [c]
   | .node .atom xs, .node _ ys, c => if Val.beqList xs ys then [] else [c]
+  | .node .enumv xs, .node _ ys, c => if Val.beqList xs ys then [] else [c]
   | .node t xs, .node _ ys, c =>
     if xs.isEmpty && ys.isEmpty then []
     else if xs.isEmpty || ys.isEmpty then [c]
